@@ -693,10 +693,14 @@ func C16(c *vf.Ctx) {
 			c16Cfg{conns: 3, accs: 3, maxGen: 1, prefixes: c16Pfx, payloads: c16PayBasic, lims: "{5}", gen: false}, "viewn", 4000, 5*time.Minute)
 		designHeader("3 writers x 1 write, free interleaving", `{"w1","w2","w3"}`, "{0,1,3}", 1, 5*time.Minute)
 	} else {
-		design("all stimulus sequences of length <= 8 at quiescence, 3 connections, 3 Accept calls",
-			c16Cfg{conns: 3, accs: 3, maxGen: 1, prefixes: c16Pfx, payloads: c16PayBasic, lims: "{8}", gen: true}, "viewn", 12000, 14*time.Minute)
-		design("free interleaving, unbounded, 1 connection, 1 Accept call",
-			c16Cfg{conns: 1, accs: 1, maxGen: 1, prefixes: c16Pfx, payloads: c16PayBasic, lims: "{1000}", gen: false}, "view", 6000, 14*time.Minute)
+		design("all stimulus sequences of length <= 7 at quiescence, 3 connections, 3 Accept calls",
+			c16Cfg{conns: 3, accs: 3, maxGen: 1, prefixes: c16Pfx, payloads: c16PayBasic, lims: "{7}", gen: true}, "viewn", 12000, 14*time.Minute)
+		design("free interleaving of stimuli and internal steps, length <= 6, 3 connections, 3 Accept calls",
+			c16Cfg{conns: 3, accs: 3, maxGen: 1, prefixes: c16Pfx, payloads: c16PayBasic, lims: "{6}", gen: false}, "viewn", 8000, 14*time.Minute)
+		design("free interleaving, unbounded, 1 connection, 1 Accept call, routes AA/BB",
+			c16Cfg{conns: 1, accs: 1, maxGen: 1, prefixes: c16Pfx, payloads: c16PayBasic, lims: "{1000}", gen: false}, "view", 8000, 14*time.Minute)
+		design("all stimulus orders at quiescence, unbounded, 2 connections, 2 Accept calls, route AA",
+			c16Cfg{conns: 2, accs: 2, maxGen: 1, prefixes: `{"AA"}`, payloads: `{<<"A","A">>, <<"A","A","x">>, <<"A","B","x">>}`, lims: "{1000}", gen: true}, "view", 12000, 14*time.Minute)
 		designHeader("3 writers x 2 writes, free interleaving", `{"w1","w2","w3"}`, "{0,1,3}", 2, 10*time.Minute)
 	}
 
@@ -743,7 +747,7 @@ func c16ListenMuxReplay(c *vf.Ctx, q bool, note func(string, ...any)) (wait func
 	}
 	nsim := 150 // per TLC worker (4 workers)
 	if !q {
-		nsim = 7000
+		nsim = 2500
 	}
 	const routedKinds = `{s \in StimSet : s.k \in {"incoming","write","cclose","accept"}}`
 	runs := []genRun{
@@ -849,7 +853,7 @@ func c16ListenMuxReplay(c *vf.Ctx, q bool, note func(string, ...any)) (wait func
 			}
 			if r.conform {
 				conform++
-				if len(sampleOK) < 12 && bi%7 == 0 {
+				if len(sampleOK) < 40 && bi%7 == 0 {
 					sampleOK = append(sampleOK, pending{b, r})
 				}
 				if len(b.Steps) >= 8 {
@@ -1012,20 +1016,25 @@ func c16ValidateTraces(c *vf.Ctx, k c16Cfg, traces [][]map[string]any, project b
 		label += "; projected on the property's observables"
 	}
 	var sb strings.Builder
-	sb.WriteString("<<")
+	sb.WriteString("{")
 	for i, t := range traces {
 		if i > 0 {
 			sb.WriteString(",\n")
 		}
-		sb.WriteString(c16TLA(t))
+		fmt.Fprintf(&sb, "[id |-> %d, steps |-> %s]", i+1, c16TLA(t))
 	}
-	sb.WriteString(">>")
+	sb.WriteString("}")
 	k.lims, k.hist, k.gen = "{0}", false, true
 	defs, plain := k.defs()
 	defs["TraceLog"] = sb.String()
 	plain["Project"] = tlaBool(project)
 	name, mod, consts := vf.MCModule("ListenMuxTrace", defs, plain)
 	cfg := "SPECIFICATION TSpec\n" + consts + "INVARIANTS TraceAccepted\nCHECK_DEADLOCK FALSE\n"
+	if d := os.Getenv("VERIF_C16_DUMP"); d != "" {
+		_ = os.MkdirAll(d, 0o755)
+		_ = os.WriteFile(fmt.Sprintf("%s/%s-%d.tla", d, name, len(traces)), []byte(mod), 0o644)
+		_ = os.WriteFile(fmt.Sprintf("%s/%s-%d.cfg", d, name, len(traces)), []byte(cfg), 0o644)
+	}
 	acc := map[int]bool{}
 	res, err := vf.TLC(vf.TLCOpts{Module: name, Cfg: cfg, Extra: map[string]string{name + ".tla": mod}, Timeout: 10 * time.Minute, HeapMB: 4000, Workers: 4,
 		OnLine: func(rec []byte) {
